@@ -449,7 +449,7 @@ class DAG(nx.DiGraph):
                     )
                     if d_seperated_variables:
                         independencies.add_assertions(
-                            [start, d_seperated_variables, observed]
+                            [[start], d_seperated_variables, observed]
                         )
         independencies.reduce()
 
@@ -491,7 +491,7 @@ class DAG(nx.DiGraph):
             parents = set(self.get_parents(variable))
             if non_descendents - parents:
                 independencies.add_assertions(
-                    [variable, non_descendents - parents, parents]
+                    [[variable], non_descendents - parents, parents]
                 )
         return independencies
 
